@@ -25,7 +25,7 @@ type Incoming struct {
 	pos        int
 	SendFailAt int // -1: never
 	SendErr    error
-	Aware      bool // honours the context (all web adapters do)
+	Aware      bool   // honours the context (all web adapters do)
 	Hook       func() // called at the start of every operation (schedule perturbation / context events)
 
 	Sent      []proto.Message
@@ -35,7 +35,9 @@ type Incoming struct {
 	release   chan struct{}
 }
 
-func NewIncoming() *Incoming { return &Incoming{SendFailAt: -1, Aware: true, release: make(chan struct{})} }
+func NewIncoming() *Incoming {
+	return &Incoming{SendFailAt: -1, Aware: true, release: make(chan struct{})}
+}
 
 // Release unblocks operations of an unaware fake at the end of a case.
 func (in *Incoming) Release() {
